@@ -4,7 +4,7 @@ import ast
 from .. import ordtype as O
 from .. import state
 from ..loader import AnalysisError, norm_stmt
-from ..small import call_arg, pad_side
+from ..small import call_arg, pad_side, validated_uses
 from .C11 import FOURIER_EDGES, GEN
 from .C16 import factors, signed_factors, terms
 
@@ -13,6 +13,8 @@ def run(ctx):
     from . import C15_kernels as _K
 
     _K.accumulator_reset(ctx, rule="R17.6")  # mode-summation kernels: phase reset per mode, every point and mode visited (shared with C15)
+    _K.accumulator_complete(ctx, rule="R17.6")
+    _K.build_independent(ctx, rule="R17.6")
     _K.full_extent(ctx, rule="R17.6")
     _K.zero_init(ctx, rule="R17.6")
     from . import C15_bounds
@@ -26,10 +28,15 @@ def run(ctx):
     from .C11 import private_copy
 
     private_copy(ctx, rule="R17.4")  # without a private model copy an in-place anisotropy change is invisible to update(): the mode mesh goes stale
+    from .C14 import no_shared_fields
+
+    # the stored period is the generator's own copy: the caller's array may change afterwards, the next rebuild of the mode mesh would follow it
+    no_shared_fields(ctx, "R17.7", GEN, "Fourier", {"_period", "_mode_no"}, floor=1)
     prog = ctx.prog
     ci = prog.cls(GEN, "Fourier")
     st = state.coherence(ctx, "R17.1", ci, FOURIER_EDGES, type_assumptions={"model": "CovModel"}, rel=GEN,
-                         param_alias={"model": "_model"}, equal_atoms=("Eq param:model",), nonnull_methods=("_fill_to_dim",))
+                         param_alias={"model": "_model"}, equal_atoms=("Eq param:model",), nonnull_methods=("_fill_to_dim",), raise_exits=True,
+                         field_types={"_model": "CovModel"})  # the constructor stores a CovModel or fails (it reads tmp_model.dim first)
     ctx.floor("R17.1", "feasible paths explored (Fourier)", st["paths"], 60)
     for e in FOURIER_EDGES:
         if e.derived not in st["fields_written"]:
@@ -49,18 +56,25 @@ def run(ctx):
             ctx.ok("R17.2", GEN + "::Fourier.update", "rebuild with the stored (already validated) mode numbers: %s" % ast.unparse(c))
             continue
         n_user += 1
-        pc = O.path_condition(upd, stmt[0])
-        guard = [(e, p) for e, p in pc if "% 2" in ast.unparse(e)]
         ok = False
-        if guard:
-            e, pol = guard[0]
-            t = ast.unparse(e)
-            # some element of the very sequence handed to _set_modes is odd: a comprehension over it whose element is `<var> % 2`
-            comp = [g for g in ast.walk(e) if isinstance(g, (ast.ListComp, ast.GeneratorExp)) and len(g.generators) == 1 and not g.generators[0].ifs
-                    and ast.unparse(g.generators[0].iter) == a0 and isinstance(g.generators[0].target, ast.Name)
-                    and ast.unparse(g.elt) == "%s %% 2" % g.generators[0].target.id]
-            ok = (not pol) and "!= 0" in t and ".any()" in t and len(comp) == 1
-        ctx.check(ok, "R17.2", GEN + "::Fourier.update", "user-supplied mode numbers reach _set_modes only after `any(m %% 2 != 0)` raised for odd values: %s" % [ast.unparse(e) for e, _ in guard], "parity:" + a0)
+        guard = []
+        if isinstance(c.args[0], ast.Name):
+            v = c.args[0].id
+
+            def is_parity_check(t, v=v):
+                # some element of the very sequence handed to _set_modes is odd: a comprehension over it whose element is `<var> % 2`
+                txt = ast.unparse(t)
+                comp = [g for g in ast.walk(t) if isinstance(g, (ast.ListComp, ast.GeneratorExp)) and len(g.generators) == 1 and not g.generators[0].ifs
+                        and ast.unparse(g.generators[0].iter) == v and isinstance(g.generators[0].target, ast.Name)
+                        and ast.unparse(g.elt) == "%s %% 2" % g.generators[0].target.id]
+                hit = "!= 0" in txt and ".any()" in txt and len(comp) == 1
+                if hit:
+                    guard.append(txt)
+                return hit
+
+            res = validated_uses(upd, v, is_parity_check, lambda n, c=c: n is c)
+            ok = len(res) == 1 and res[0][1] is True
+        ctx.check(ok, "R17.2", GEN + "::Fourier.update", "user-supplied mode numbers reach _set_modes only after `any(m %% 2 != 0)` raised for odd values (validate-before-use typestate of `%s`): %s" % (a0, sorted(set(guard))), "parity:" + a0)
     ctx.check(n_user >= 1, "R17.2", GEN + "::Fourier.update", "a user-value _set_modes site exists (%d)" % n_user, "user-site")
     other = []
     for c in ci.mro():
